@@ -44,7 +44,10 @@ class Pi(schemes.interface.inverted_index_sse.InvertedIndexSSE):
         N = get_total_size(database)
         t = math.ceil(math.log2(N))
 
-        padded_database = copy.deepcopy(database)  # need to deep copy!! Otherwise, it will affect the original database
+        # Every keyword needs its own copy of its identifier list: the lists are padded in place below, so the caller's
+        # database must not be affected, and a list object that the caller filed under several keywords must not be padded
+        # more than once (copy.deepcopy would keep such sharing).
+        padded_database = {keyword: list(identifier_list) for keyword, identifier_list in database.items()}
 
         # If N is not a power of two, we need to pad DB to
         # satisfy this by adding some dummy keyword-identifier pairs.
